@@ -324,7 +324,15 @@ class Xfer(Harness):
                         run_fut(srv, f)
                     step(srv)
                 step_ctrl()
-                sender.maybe_retry()
+                try:
+                    sender.maybe_retry()
+                except ValueError:
+                    # with the retry budget lowered to 3 the injected faults can exhaust it: the controller's sender gives up loudly,
+                    # which is the outcome the messaging layer promises (C06); nothing more is claimed about such a path
+                    ch.note("nontrivial", True)
+                    ch.note("faults", net.log)
+                    WORLD["observe"] = None
+                    return
                 CLOCK.now += grace
             ch.note("faults", net.log)
             ch.note("issued", issued)
